@@ -32,6 +32,8 @@ def sec_to_public_pair(
             y = from_bytes_32(sec[1 + byte_count : 1 + 2 * byte_count])
             if generator and y >= generator.p():
                 raise EncodingError("y coordinate is not below the field prime")
+            if sec0 in (b"\6", b"\7") and (y & 1) != (sec0 == b"\7"):
+                raise EncodingError("hybrid public key prefix does not match the parity of y")
             return (x, y)
     elif len(sec) == 1 + byte_count:
         if sec0 in (b"\2", b"\3"):
